@@ -107,6 +107,8 @@ fn strategy(tier: Tier, index: u64) -> BoxedStrategy<History> {
             w.sync = 1;
             w.dbsync = 1;
             w.iter = 2;
+            // batches, incl. put_from_iter fed by a traversal of the same map through another handle
+            w.bulk = 3;
             w.reopen = if index % 4 == 0 { 1 } else { 0 };
             let cfg = OpsCfg {
                 w,
@@ -114,7 +116,7 @@ fn strategy(tier: Tier, index: u64) -> BoxedStrategy<History> {
                 n_ops: tier.pick(0..=200, 0..=500),
                 reopen_params: None,
                 reopen_child: true,
-                max_batch: 0,
+                max_batch: 6,
                 n_maps: n,
             };
             let p0 = specs[0].1;
@@ -182,7 +184,7 @@ impl Prop for C11 {
         "C11"
     }
     fn rule(&self) -> String {
-        "2-5 maps of mixed key types in one directory, names drawn from a pool with traps (a, a.key, a.val, a.htx, A, m1, m10, b); seeded random interleaved histories in which ~25% of the calls switch the current map / handle, clone a handle, drop one, re-acquire the map through the db object or through a clone of the db object; about 40% of the maps are opened late (at their first use, through the most recently cloned database handle, re-acquired later through the original one); every call goes through the currently selected handle and is compared with the model of that map (so an update through one handle must be seen through all others); around every update all other maps are flushed and the bytes of their three files must be unchanged; db-level sync and clean reopen (with child-process verification of all maps) are part of the alphabet. Non-trivial: >= 3 maps, >= 2 key types and a switch between >= 2 live handles of one map; distinct by case digest."
+        "2-5 maps of mixed key types in one directory, names drawn from a pool with traps (a, a.key, a.val, a.htx, A, m1, m10, b); seeded random interleaved histories in which ~25% of the calls switch the current map / handle, clone a handle, drop one, re-acquire the map through the db object or through a clone of the db object (db_map_X(name), and db_map_X_with_params(name, other parameters) on the open map, whose parameters are ignored); small batches incl. put_from_iter fed by a live traversal of the same map through another handle; about 40% of the maps are opened late (at their first use, through the most recently cloned database handle, re-acquired later through the original one); every call goes through the currently selected handle and is compared with the model of that map (so an update through one handle must be seen through all others); around every update all other maps are flushed and the bytes of their three files must be unchanged; db-level sync and clean reopen (with child-process verification of all maps) are part of the alphabet. Non-trivial: >= 3 maps, >= 2 key types and a switch between >= 2 live handles of one map; distinct by case digest."
             .to_string()
     }
     fn n_cases(&self, tier: Tier) -> u64 {
